@@ -34,8 +34,16 @@ def _one_shape(args):
     t0 = time.time()
     try:
         # one TLC run: exhaustive check of the specification's invariants and action properties + graph export
-        nodes, edges, inits, res = tlc.dump_graph('PonySession', session.cfg_props(shape, level), ctx.scratch,
+        glevel = min(level, 4)
+        nodes, edges, inits, res = tlc.dump_graph('PonySession', session.cfg_props(shape, glevel), ctx.scratch,
                                                   tag='PonySession-%s' % shape, workers=workers)
+        if level > glevel:
+            # thorough tier: the specification's own properties one level deeper than the exported graph (the state
+            # graph of level 5 has 3.6 M states over the eleven shapes: exporting it costs more than it adds, the deep
+            # behaviours come from the systematic enumeration and from tlc -simulate)
+            res = tlc.model_check('PonySession', session.cfg_props(shape, level), ctx.scratch,
+                                  tag='PonySessionProps-%s' % shape, workers=workers)
+        level = glevel
         t_tlc = round(time.time() - t0, 1)
         for j, strategy in enumerate(strategies):
             g = session.Graph(nodes, edges, inits)
@@ -125,12 +133,12 @@ def run(ctx, prop, shapes=None, strategies=('default',), focus=None):
     quick = ctx.tier == 'quick'
     shapes = shapes or (QUICK_SHAPES[prop] if quick else ALL_SHAPES)
     level = 3 if quick else 5
-    nbeh = 700 if quick else 8000
+    nbeh = 700 if quick else 6000
     nsim = 120 if quick else 2500
     if len(strategies) > 1:
         nbeh = nbeh // 2
         nsim = nsim // 3
-    jobs = [(shape, level, nbeh, ctx.seed * 1000 + i * 10, tuple(strategies), ctx.scratch.dir, 4 if quick else 2, nsim, 14 if quick else 20, 3 if quick else 4, 20 if quick else 420) for i, shape in enumerate(shapes)]
+    jobs = [(shape, level, nbeh, ctx.seed * 1000 + i * 10, tuple(strategies), ctx.scratch.dir, 4 if quick else 2, nsim, 14 if quick else 20, 3 if quick else 4, 20 if quick else 300) for i, shape in enumerate(shapes)]
     mp = multiprocessing.get_context('fork')
     with mp.Pool(min(len(jobs), 8)) as pool:
         results = [r for rs in pool.map(_one_shape, jobs) for r in rs]
